@@ -33,6 +33,9 @@ def jobs(tier, seed):
     for n in (2, 3, 4):
         for idx in range(len(W.dag_shapes(n))):
             dags.append(wl("dag_workload", n, idx))
+    # a branch that stays in flight for 6 polling rounds while the workflow-completion check keeps being re-queued
+    js.append({"label": "slow_branch[6]|all-orders|wait-horizon 20", "wl": wl("slow_branch", 6), "budget": {},
+               "wait_retries": 20, "max_states": 400000})
     if tier == "quick":
         heavy = {"first_of", "quorum", "multi_merge", "jump_side_fanin"}
         for spec in CONFLUENT + RACY:
@@ -61,7 +64,12 @@ def jobs(tier, seed):
 
 
 def build(job):
+    from vlib.world import DEFAULT_WAIT_RETRIES
+
     w = world()
+    # the "stage still running, poll again" horizon: production 240 x 15 s; 2 in the harness unless a workload
+    # legitimately keeps a stage in flight for several polling rounds
+    w.wait_retries = job.get("wait_retries", DEFAULT_WAIT_RETRIES[0])
     workload = make_workload(job["wl"])
     adm, _ledger, _ = reference_outcomes(w, workload)
     mons = [OutcomeMonitor(adm), ExecOnceMonitor(), LegalTransitionMonitor()]
